@@ -35,16 +35,20 @@ Value level (abstracted exactly as `HeapOps` abstracts it)
     for the call sites concerned (keyed by source text; a site not listed passes `tag` on).  A wrong entry breaks the
     equality proof, not soundness.
 
-Scalars outside the identity state
-  `Bar.default_channel` (source commit f9ef398) is a scalar attribute that `HeapOps.BarCell` does not have.  It is treated
-  as VALUE LEVEL: the store `self.default_channel = default_channel` is accepted only because the stored expression is a
-  scalar (an int / None parameter — checked; an object reference would be refused), and is not part of the heap; a read of
-  it is a value-level result.  Its only use is `channel=default_channel` of the TIME_SIGNATURE `Message(...)` that
-  `Bar.__init__` inserts: a `Message(...)` call with a value-level argument takes the VALUE of the new message from the
-  oracle (`ORACLE_MESSAGES`, keyed by the source text of the call: `g.orc.tsMsg numerator denominator`) — exactly the
-  abstraction of `HeapOps.barFinish`.  The allocation and what happens to the reference are translated as before.
+Value-level scalars of `Bar`
+  The constructor parameter `default_channel` is VALUE LEVEL (it stands behind the tag, like every scalar argument).  Its only
+  use is `channel=default_channel` of the TIME_SIGNATURE `Message(...)` that `Bar.__init__` inserts: a `Message(...)` call with a
+  value-level argument takes the VALUE of the new message from the oracle (`ORACLE_MESSAGES`, keyed by the source text of the
+  call: `g.orc.tsMsg numerator denominator`) — exactly the abstraction of `HeapOps.barFinish`.  The allocation and what happens
+  to the reference are translated as before.  `Bar.copy` (second repair of D37) computes that argument from the bar's own
+  messages: `next((msg for msg in self.sequence.rel._messages if …), None)` is the first reference of the filtered list
+  (`List.head?`, an `Option`); the READ of `self.sequence.rel` is a call of the translated property and may regenerate a stale
+  relative view of the ORIGINAL (a heap effect, kept); `time_signature.channel if time_signature is not None else 0` is a
+  conditional expression whose guarded branch only reads a field of the guarded object: value level, no effect.
   (Limit of that abstraction, unchanged: `tsMsg` is keyed by numerator and denominator only, so one oracle describes
-  histories in which bars of equal signature have equal default channel; through the operations of `HOp` every bar has 0.)
+  histories in which bars of equal signature have equal channel of the signature message.)
+  A source that STORES such a scalar in an attribute the cells do not have (source commit f9ef398: `self.default_channel = …`) is
+  refused: `UNMODELLED_SCALARS` is empty.
 
 Aliasing of raw Python lists
   A list VALUE is sound only while the list object has one owner.  The translator enforces: `_messages` is assigned only
@@ -102,7 +106,7 @@ FIELDS["AbsView"] = FIELDS["RelView"] = FIELDS["View"]
 # scalar attributes that the cells of HeapOps do not model (see "Scalars outside the identity state" in the module docstring):
 # cell type -> attribute names.  A store is accepted only if the stored expression is a scalar (Int / None / value level);
 # a read is a value-level result.
-UNMODELLED_SCALARS = {"Bar": {"default_channel"}}
+UNMODELLED_SCALARS = {}
 # `Message(...)` calls with a value-level argument: the VALUE of the new message comes from the oracle, as in HeapOps
 # (qualified function, source text of the call) -> Lean template over the exactly translated keyword arguments
 ORACLE_MESSAGES = {
@@ -397,10 +401,34 @@ class FnTranslator:
                     raise Untranslatable(f"{self.qual}: arithmetic on a {t}")
             return None, "Val"
         if isinstance(n, ast.IfExp):
-            for x in (n.test, n.body, n.orelse):
-                _, t = self.expr(x, ind)
-                if t not in ("Val", "Int", "Bool", "None"):
-                    raise Untranslatable(f"{self.qual}: conditional expression over a {t}")
+            # `<a> if <x> is not None else <b>` (or `is None`, branches swapped) on a local Optional reference: inside the guarded branch
+            # `x` is the object; the branches must be value level and free of effects (only reads of the current heap)
+            narrowed, guarded = None, None
+            tst = n.test
+            if isinstance(tst, ast.Compare) and len(tst.ops) == 1 and isinstance(tst.ops[0], (ast.Is, ast.IsNot)) \
+                    and isinstance(tst.comparators[0], ast.Constant) and tst.comparators[0].value is None \
+                    and isinstance(tst.left, ast.Name) and self.types.get(tst.left.id, "").startswith("Opt "):
+                narrowed = tst.left.id
+                guarded = n.body if isinstance(tst.ops[0], ast.IsNot) else n.orelse
+            outer_lines, outer_heap = self.lines, self.heap
+            self.lines = []
+            try:
+                for x in (n.test, n.body, n.orelse):
+                    saved = self.types.get(narrowed)
+                    if narrowed is not None and x is guarded:
+                        self.types[narrowed] = saved[4:]
+                    try:
+                        _, t = self.expr(x, ind)
+                    finally:
+                        if narrowed is not None:
+                            self.types[narrowed] = saved
+                    if t not in ("Val", "Int", "Bool", "None"):
+                        raise Untranslatable(f"{self.qual}: conditional expression over a {t}")
+                inner = self.lines
+            finally:
+                self.lines, self.heap = outer_lines, outer_heap
+            if not all("← HM.get" in ln or ln.strip().startswith("--") for ln in inner):
+                raise Untranslatable(f"{self.qual}: conditional expression with effects: {ast.unparse(n)}")
             return None, "Val"
         if isinstance(n, ast.Subscript):
             v, t = self.expr(n.value, ind)
@@ -578,6 +606,16 @@ class FnTranslator:
                 for a in n.args:
                     self.opaque(a, ind)
                 return None, "Val"
+            if f.id == "next":
+                # next(<generator expression>, None): the first yielded reference, or None.  (Without a default the call raises
+                # StopIteration: refused.)  The generator's filter is an exactly translated value predicate without effects.
+                if len(n.args) != 2 or n.keywords or not (isinstance(n.args[1], ast.Constant) and n.args[1].value is None) \
+                        or not isinstance(n.args[0], ast.GeneratorExp):
+                    raise Untranslatable(f"{self.qual}: {ast.unparse(n)} (only next(<generator expression>, None))")
+                v, t = self.expr(n.args[0], ind)
+                if v is None or not t.startswith("List ") or t[5:] not in REFS:
+                    raise Untranslatable(f"{self.qual}: next over a {t}")
+                return f"{v}.head?", f"Opt {t[5:]}"
             if f.id in PURE_BUILTINS:
                 for a in n.args:
                     t = self.opaque(a, ind)
